@@ -262,6 +262,49 @@ fn main() {
             rep.violation(&sig, json!({"operator": format!("{op:?}"), "observed": msg}));
         }
     }
+    // "mu random ones": over many seeds every member of parents + offspring survives about equally often (mu / total)
+    {
+        let n_seeds = rep.tier.pick(20_000u64, 400_000u64);
+        let band = ((2.0f64 / 1e-10).ln() / (2.0 * n_seeds as f64)).sqrt();
+        for &(np, no, mu) in &[(2usize, 10usize, 2u32), (4, 4, 4), (6, 2, 3), (1, 7, 1), (5, 5, 9), (3, 9, 6)] {
+            rep.case();
+            rep.nontrivial(hash_of(&("random-frequency", np, no, mu)));
+            let parents: Vec<T> = (0..np).map(|i| (1 + i as u32, (i as f64).to_bits())).collect();
+            let offspring: Vec<T> = (0..no).map(|i| (101 + i as u32, (10.0 + i as f64).to_bits())).collect();
+            let total = np + no;
+            let mut kept = vec![0u64; total];
+            let comp = replacement::RandomReplacement::new::<TagP>(mu);
+            let mut failed = None;
+            for seed in 0..n_seeds {
+                let mut st = State::<TagP>::new();
+                let mut p = Populations::<TagP>::new();
+                p.push(parents.iter().map(mk).collect());
+                p.push(offspring.iter().map(mk).collect());
+                st.insert(p);
+                st.insert(Random::new(seed ^ rep.seed.wrapping_mul(0x9E37_79B9)));
+                match catch(|| comp.execute(&TagP, &mut st).map_err(|e| e.to_string())) {
+                    Ok(Ok(())) => {
+                        for ind in st.populations().current() {
+                            let t = view(ind);
+                            if let Some(ix) = parents.iter().chain(offspring.iter()).position(|x| *x == t) {
+                                kept[ix] += 1;
+                            }
+                        }
+                    }
+                    other => {
+                        failed = Some(format!("{other:?}"));
+                        break;
+                    }
+                }
+            }
+            let want = (mu as usize).min(total) as f64 / total as f64;
+            let freq: Vec<f64> = kept.iter().map(|k| *k as f64 / n_seeds as f64).collect();
+            if failed.is_some() || freq.iter().any(|f| (f - want).abs() > band) {
+                rep.violation("Random:survivors-are-not-a-uniformly-random-choice", json!({"parents": np, "offspring": no, "mu": mu, "seeds": n_seeds, "survival_frequency_per_member (parents first)": freq, "expected": want, "band": band, "failure": failed}));
+            }
+        }
+        rep.set("random_replacement_frequency_seeds", json!(n_seeds));
+    }
     rep.sample(json!({"operator": "KeepBetterAtIndex", "parents": [[1, 0.0], [2, 2.0]], "offspring": [[11, 0.0], [12, -1.0]], "expected": [[1, 0.0], [12, -1.0]], "note": "tie at index 0 stays with the parent"}));
     rep.exhaustive(true);
     rep.finish();
